@@ -7,17 +7,25 @@ mod c04;
 mod common;
 mod keys;
 mod model;
+mod verify;
 
 use serde_json::{json, Value};
 use std::io::{BufRead, Write};
 
 struct State {
     c04: Option<c04::Ctx>,
+    verify: Option<verify::Ctx>,
 }
 
 fn dispatch(st: &mut State, scn: &Value) -> Value {
     match scn["m"].as_str().unwrap_or("") {
         "C03" => c03::run(scn, false),
+        "VERIFY" => {
+            let prop = scn["prop"].as_str().unwrap_or("").to_string();
+            let pin = std::env::var("ITV_CLOCK").map(|v| v != "real").unwrap_or(true);
+            let ev = std::env::var("ITV_EVENTS").is_ok();
+            st.verify.get_or_insert_with(|| verify::Ctx::new(&common::family(), &prop)).run(scn, ev, pin)
+        }
         "C04" => st.c04.get_or_insert_with(|| c04::Ctx::new(&common::family())).run(scn, true, false),
         m => json!({"error": format!("unknown module {m}")}),
     }
@@ -27,7 +35,7 @@ fn main() {
     let args: Vec<String> = std::env::args().collect();
     let cmd = args.get(1).map(|s| s.as_str()).unwrap_or("");
     common::quiet_panics();
-    let mut st = State { c04: None };
+    let mut st = State { c04: None, verify: None };
     let stdout = std::io::stdout();
     let mut out = std::io::BufWriter::new(stdout.lock());
     match cmd {
